@@ -16,7 +16,7 @@ PROP = {
     "rule": "SOCKS5: 1-3 sequential connections per Server x method list (10 presets + random) x 11 sub-negotiation kinds x cmd {1,2,3,other} x atyp {1,3,4,other,empty domain} x one mutation "
             "{none,flip,trunc,ins,del} x chunking {one write, every byte, section boundaries +-1, random} x cut kind {plain, zero-length write, pause until the server is parked}; "
             "HTTP: 1-2 connections x 1-4 requests {get,post,connect,origin-form,garbage} x 17 credential header variants x keep-alive variants x CONNECT framing headers {none, Content-Length 0/1/payload/payload+-1/half/more than sent, duplicate or list Content-Length, Transfer-Encoding chunked (payload random or looking like chunk framing)/identity, Expect: 100-continue, Connection: close} x payload {0..9000} behind the last head x chunking "
-            "{one write, around the head end, exactly at it, just behind it, request boundaries, random}; mux: 3-22 steps over {listen,close,accept,conn,first,rest,abort,basefail} x settle/race, first byte 0x05 or one of 10 others, reads {0,1,2,3,5,64}. "
+            "{one write, around the head end, exactly at it, just behind it, request boundaries, random}; mux: 3-22 steps over {listen,close,accept,conn,first,rest,abort,basefail,zero-length chunk} (0-3 zero-length chunks also right before the first byte, between it and the rest, and before a client EOF) x settle/race, first byte 0x05 or one of 10 others, reads {0,1,2,3,5,64}. "
             "end-to-end: 1-4 clients (SOCKS5 or HTTP CONNECT, right/wrong password, sequential or concurrent) through proxymux.ListenSOCKS+ListenHTTP on one loopback port into the real servers. "
             "Non-trivial: SOCKS5/HTTP with AuthFunc set and an unauthorised or mutated stream, wrong-then-right credentials, or a payload riding in the same write as the head; "
             "mux: a sub-listener closed (or the base listener failed) while a connection of its kind was pending/in flight, or both outcomes (delivered and closed) / both protocols in one history. Distinct = structural fingerprint of the case.",
@@ -32,6 +32,7 @@ PROP = {
         {"name": "TestVerifC18_Regress_CloseWhilePending", "unit": M, "kind": "plain"},
         {"name": "TestVerifC18_Regress_AcceptDuringShutdown", "unit": M, "kind": "plain"},
         {"name": "TestVerifC18_Regress_BaseAcceptErrorWhilePending", "unit": M, "kind": "plain"},
+        {"name": "TestVerifC18_Regress_ZeroLengthFirstRead", "unit": M, "kind": "plain"},
         {"name": "TestVerifC18_Stress_ListenOnDyingMux", "unit": M, "kind": "plain", "timeout_thorough": 1800},
         {"name": "TestVerifC18_Socks5Regress", "unit": S, "kind": "plain"},
         {"name": "TestVerifC18_HTTPRegress", "unit": H, "kind": "plain"},
